@@ -26,6 +26,7 @@ GHOST = [
     'uint8_t g_entered; _Bool g_root_entered;',
     'struct TransitionT g_surv; _Bool g_has_surv; uint32_t g_rounds;',
     'struct TransitionT g_lastreq;   /* the outstanding request exactly as its requester issued it */',
+    'struct TransitionT g_lasteval;  /* the request most recently put before the guards */',
     'struct Ev *g_event;',
     '#define WHO(st) ((st) != 255)',
 ]
@@ -590,7 +591,7 @@ R_GUARDS = dict(
               t_eq('(*pendingTransition)', 'g_lastreq'),
               implies('g_has_surv', t_eq('(*currentTransition)', 'g_surv')), implies('!g_has_surv', t_default('(*currentTransition)'))],
     assigns=[RC + '.request', RC + '.planData', 'g_lastreq', 'g_clock'] + marks([K['ENTRY_GUARD'], K['EXIT_GUARD']], (1,)),
-    assigns_callee=['g_rounds', 'g_surv', 'g_has_surv'],
+    assigns_callee=['g_rounds', 'g_surv', 'g_has_surv', 'g_lasteval'],
     ensures=[# C03: exit guard of the active state first; the entry guard of the destination only if the exit guard did not cancel
              ('C03', '%s && g_st[11][1] == %s' % (ticked(11, 1), R_ACT)),
              ('C03', implies('!__CPROVER_return_value', '%s && %s < %s && g_st[1][1] == %s' % (ticked(1, 1), tk(11, 1), tk(1, 1), R_REQD))),
@@ -598,7 +599,7 @@ R_GUARDS = dict(
              'g_clock <= __CPROVER_old(g_clock) + 90',
              ('C02', '((%s && %s) || (%s.request._b0.destination < %s && %s.request._b0.method == Method__NONE && %s))'
               % (t_eq(RC + '.request', '__CPROVER_old(%s.request)' % RC), t_eq('g_lastreq', '__CPROVER_old(g_lastreq)'), RC, N, RC, t_eq('g_lastreq', RC + '.request')))],
-    ensures_callee=['g_rounds == __CPROVER_old(g_rounds) + 1',
+    ensures_callee=['g_rounds == __CPROVER_old(g_rounds) + 1', t_eq('g_lasteval', '(*pendingTransition)'),
                     implies('!__CPROVER_return_value', 'g_has_surv && ' + t_eq('g_surv', '(*pendingTransition)')),
                     implies('__CPROVER_return_value', 'g_has_surv == __CPROVER_old(g_has_surv) && ' + t_eq('g_surv', '__CPROVER_old(g_surv)'))])
 
@@ -608,8 +609,13 @@ def life_effect(pre_active, surv_dest):
                     '%s && %s < %s && g_st[12][1] == %s && g_st[2][1] == %s && %s == 0' % (ticked(12, 1), tk(12, 1), tk(2, 1), pre_active, surv_dest, tk(3, 1))),
             implies('%s == %s' % (pre_active, surv_dest), '%s && g_st[3][1] == %s && %s == 0 && %s == 0' % (ticked(3, 1), surv_dest, tk(2, 1), tk(12, 1)))]
 
-PT_ASSIGNS = ['__CPROVER_object_whole(self)', '*currentTransition', 'g_rounds', 'g_surv', 'g_has_surv', 'g_lastreq', 'g_clock', 'g_entered', 'g_root_entered'] + \
+PT_ASSIGNS = ['__CPROVER_object_whole(self)', '*currentTransition', 'g_rounds', 'g_surv', 'g_has_surv', 'g_lastreq', 'g_lasteval', 'g_clock', 'g_entered', 'g_root_entered'] + \
              marks([K['ENTRY_GUARD'], K['EXIT_GUARD']] + LIFE1, (1,))
+# every request issued is accounted for: put before the guards, still outstanding, or dropped as a duplicate of the
+# transition accepted so far.  On the pinned tree "duplicate" means: same destination as an accepted *bare* request
+# (origin invalid, no payload) -- which also drops requests that differ in origin / payload (known finding F9).
+DEDUPE = '(g_lastreq._b0.destination == (*currentTransition)._b0.destination && (*currentTransition)._b0.origin == 255 && !(*currentTransition).payloadSet && (*currentTransition)._b0.method == Method__NONE)'
+ACCOUNTED = '(%s || %s || %s)' % (t_eq('g_lastreq', 'g_lasteval'), '(!%s && %s)' % (t_empty(RC + '.request'), t_eq(RC + '.request', 'g_lastreq')), DEDUPE)
 R_PT = dict(
     requires_target=R_TARGET + [fresh('currentTransition')],
     requires=['g_clock < ' + BOUND['R'], RC + '.request._b0.destination < ' + N, t_eq(RC + '.request', 'g_lastreq'), '%s < %s' % (R_ACT, N),
@@ -622,7 +628,9 @@ R_PT = dict(
              ('C11', implies('g_has_surv', t_eq('(*currentTransition)', 'g_surv'))),
              ('C11', implies('!g_has_surv', t_empty('(*currentTransition)'))),
              ('C01', R_REQD + ' == 255'), ('C01', '%s < %s && g_root_entered && g_entered == %s' % (R_ACT, N, R_ACT)),
-             ('C04', REQ_INV[0]), ('C04', REQ_INV[1]), 'g_clock <= __CPROVER_old(g_clock) + 30000']
+             ('C04', REQ_INV[0]), ('C04', REQ_INV[1]), 'g_clock <= __CPROVER_old(g_clock) + 30000 && g_clock >= __CPROVER_old(g_clock)',
+             ('C07', ACCOUNTED),
+             ('C07,C11#F9-duplicate-request-dropped', implies('!%s && !(!%s && %s)' % (t_eq('g_lastreq', 'g_lasteval'), t_empty(RC + '.request'), t_eq(RC + '.request', 'g_lastreq')), t_eq('g_lastreq', '(*currentTransition)')))]
             + [('C02', implies('g_has_surv', x)) for x in life_effect('__CPROVER_old(%s)' % R_ACT, 'g_surv._b0.destination')],
     loops={0: dict(
         assigns=['i', 'pendingTransition'] + PT_ASSIGNS,
@@ -632,7 +640,7 @@ R_PT = dict(
                    implies('!g_has_surv', t_default('(*currentTransition)')),
                    # the destination deepChangeToRequested() will enter is the survivor's (what F1 broke)
                    implies('g_has_surv', R_REQD + ' == g_surv._b0.destination'),
-                   REQ_INV[0], REQ_INV[1],
+                   REQ_INV[0], REQ_INV[1], ACCOUNTED,
                    '%s == __CPROVER_loop_entry(%s)' % (R_ACT, R_ACT), 'g_root_entered && g_entered == ' + R_ACT] + zero(LIFE1, (1,)),
         decreases=LIM + ' - i')})
 
@@ -643,7 +651,7 @@ def r_unit(name, fn, contract, callee_contracts, props, nparams, calls=None, cls
     contracts.update(callee_contracts)
     cl = dict(R_CALLS); cl.update(calls or {})
     u = dict(id='root.%s' % name, witness=W, recs=R_RECS, opaque=R_OPAQUE, opaque_keep=R_KEEP, props=props,
-             target=dict(cls=cls, name=name, nparams=nparams), consts=CONSTS, need_consts=['ArgsT.STATE_COUNT'], ghost=GHOST, calls=cl, contracts=contracts)
+             target=dict(cls=cls, name=name, nparams=nparams), consts=CONSTS, need_consts=['ArgsT.STATE_COUNT', 'R_.SUBSTITUTION_LIMIT'], ghost=GHOST, calls=cl, contracts=contracts)
     u.update(kw)
     return u
 
@@ -654,4 +662,102 @@ UNITS += [
     r_unit('cancelledByGuards', 'R___cancelledByGuards', R_GUARDS,
            {'C___deepForwardExitGuard': c_guard(11, G_ACT, False), 'C___deepForwardEntryGuard': c_guard(1, G_REQD, False)},
            ['C03', 'C06', 'C07', 'C18'], 2),
+]
+
+# ---- logger records for requests / cancellations / task status (C16)
+GHOST += ['uint32_t g_rec_t; uint8_t g_rec_kind; uint8_t g_rec_a; uint8_t g_rec_b;   /* last non-method logger record: 1 transition(origin,target) 2 cancelled(origin) 3 task status(origin,event) */']
+def rec_contract(kind, a, b):
+    return dict(optional=True, requires=['g_clock < ' + BIG + ' * 2'], assigns=['g_clock', 'g_rec_t', 'g_rec_kind', 'g_rec_a', 'g_rec_b'],
+                ensures=['g_clock == __CPROVER_old(g_clock) + 1 && g_rec_t == g_clock && g_rec_kind == %d && g_rec_a == %s && g_rec_b == %s' % (kind, a, b)])
+LOGREC = {'LoggerInterfaceT__recordTransition': rec_contract(1, '_unnamed1', '_unnamed2'),
+          'LoggerInterfaceT__recordCancelledPending': rec_contract(2, '_unnamed1', '0'),
+          'LoggerInterfaceT__recordTaskStatus': rec_contract(3, '_unnamed1', '_unnamed2')}
+def logged(kind, a, b, logger):
+    """with a logger attached the call produces exactly one record with these arguments; none without"""
+    return [('C16', implies('%s != (void*)0' % logger, 'g_rec_t == __CPROVER_old(g_clock) + 1 && g_clock == g_rec_t && g_rec_kind == %d && g_rec_a == %s && g_rec_b == %s' % (kind, a, b))),
+            ('C16', implies('%s == (void*)0' % logger, 'g_clock == __CPROVER_old(g_clock) && g_rec_t == __CPROVER_old(g_rec_t)'))]
+REC_ASSIGNS = ['g_clock', 'g_rec_t', 'g_rec_kind', 'g_rec_a', 'g_rec_b']
+
+# ---- R_: making requests (C02: a request never changes the active state when made -- the registry is not in the frame)
+R_CHANGETO = dict(
+    requires_target=R_TARGET, requires=['g_clock < ' + BOUND['R']],
+    assigns=[RC + '.request'] + REC_ASSIGNS, assigns_callee=['g_lastreq'],
+    ensures=[('C02', '%s.request._b0.destination == stateId_ && %s.request._b0.origin == 255 && %s.request._b0.method == Method__NONE && !%s.request.payloadSet' % (RC, RC, RC, RC))]
+            + logged(1, '255', 'stateId_', RC + '.logger'),
+    ensures_callee=[t_eq('g_lastreq', RC + '.request')])
+
+PR_ASSIGNS = [x for x in PT_ASSIGNS if x != '*currentTransition']
+def pr_ensures(pre_active):
+    return [('C04', 'g_rounds <= ' + LIM),
+            ('C02', implies('g_has_surv', '%s == g_surv._b0.destination' % R_ACT)),
+            ('C02', implies('!g_has_surv', '%s == %s' % (R_ACT, pre_active))),
+            ('C02', implies('!g_has_surv', '%s == 0 && %s == 0 && %s == 0' % (tk(2, 1), tk(3, 1), tk(12, 1)))),
+            # C11: the history is the transition actually applied (empty if none)
+            ('C11', implies('g_has_surv', t_eq(RC + '.previousTransition', 'g_surv'))),
+            ('C11', implies('!g_has_surv', t_empty(RC + '.previousTransition'))),
+            ('C11', implies('!' + t_empty(RC + '.previousTransition'), '%s.previousTransition._b0.destination == %s' % (RC, R_ACT))),
+            ('C04', REQ_INV[0]), ('C04', REQ_INV[1])] + INV_POST + \
+           [('C02', implies('g_has_surv', x)) for x in life_effect(pre_active, 'g_surv._b0.destination')]
+R_PR = dict(
+    requires_target=R_TARGET,
+    requires=['g_clock < 900u', 'g_rounds == 0', '!g_has_surv'] + INV + REQ_INV + zero(LIFE1, (1,)),
+    assigns=PR_ASSIGNS,
+    ensures=pr_ensures('__CPROVER_old(%s)' % R_ACT) + ['g_clock >= __CPROVER_old(g_clock) && g_clock <= __CPROVER_old(g_clock) + 30000',
+                                                    # every guard / lifecycle delivery of this step happens after it started
+                                                    ] + ['(%s == 0 || %s > __CPROVER_old(g_clock))' % (tk(k, 1), tk(k, 1)) for k in LIFE1])
+
+UNITS += [
+    r_unit('processRequest', 'R___processRequest', R_PR, {'R___processTransitions': R_PT}, ['C02', 'C04', 'C11', 'C01', 'C18'], 0,
+           calls={'R___processTransitions': 'contract'}),
+    r_unit('changeTo', 'R___changeTo__1', R_CHANGETO, dict(LOGREC), ['C02', 'C16', 'C18'], 1, calls={'re:^LoggerInterfaceT__': 'contract'}),
+    r_unit('immediateChangeTo', 'R___immediateChangeTo__1',
+           dict(requires_target=R_TARGET, requires=['g_clock < 800u', 'stateId_ < ' + N, 'g_rounds == 0', '!g_has_surv'] + INV + zero(LIFE1, (1,)),
+                assigns=PR_ASSIGNS + REC_ASSIGNS,
+                ensures=pr_ensures('__CPROVER_old(%s)' % R_ACT)),
+           {'R___changeTo__1': R_CHANGETO, 'R___processRequest': R_PR}, ['C02', 'C04', 'C11', 'C01', 'C18'], 1,
+           calls={'R___changeTo__1': 'contract', 'R___processRequest': 'contract'}),
+]
+
+# ---- R_::update / react / query (C05)
+FC = core('Full')
+C_UPDATE_PLANS = dict(     # C_::deepUpdatePlans as seen from R_ (proved in contracts/plans.py against the plan data)
+    requires=['g_clock < ' + BOUND['C'], '%s->registry.active < %s' % (FC, N)] + zero([13, 14], (0,)),
+    assigns=['g_clock', 'g_lastreq', FC + '->request', FC + '->planData', 'control->_b0._b0._taskStatus', 'control->_b0._b0._b0._originId'] + marks([13, 14], (0,)) + REC_ASSIGNS,
+    ensures=['((%s && %s) || (%s->request._b0.destination < %s && %s->request._b0.method == Method__NONE && %s))'
+             % (t_eq(FC + '->request', '__CPROVER_old(%s->request)' % FC), t_eq('g_lastreq', '__CPROVER_old(g_lastreq)'), FC, N, FC, t_eq('g_lastreq', FC + '->request')),
+             'g_clock >= __CPROVER_old(g_clock) && g_clock <= __CPROVER_old(g_clock) + 600',
+             'control->_b0._b0._b0._originId == __CPROVER_old(control->_b0._b0._b0._originId)'])
+def r_cycle(kinds, ev):
+    a, b, c3 = kinds
+    chain = [tk(a, 0), tk(a, 1), tk(b, 0), tk(b, 1), tk(c3, 1), tk(c3, 0)]
+    order = '__CPROVER_old(g_clock) < %s && ' % chain[0] + ' && '.join('%s < %s' % (chain[i], chain[i + 1]) for i in range(5))
+    pre_act = '__CPROVER_old(%s)' % R_ACT
+    return dict(
+        requires_target=R_TARGET + (['{fresh:event}'] if ev else []),
+        requires=['g_clock < 100u', 'g_rounds == 0', '!g_has_surv'] + INV + REQ_INV + zero(list(kinds) + [13, 14]) + zero(LIFE1, (1,)) + (['{ptr:event} == g_event'] if ev else []),
+        assigns=PR_ASSIGNS + marks(list(kinds) + [13, 14]) + REC_ASSIGNS,
+        ensures=[# C05: exactly once each, in this order, root then active state (post phase: active state then root)
+                 ('C05', order),
+                 ('C05', ' && '.join('g_st[%d][0] == 255 && g_st[%d][1] == %s' % (k, k, pre_act) for k in kinds)),
+                 # ... and the state active at the start gets all its phase callbacks before any exit/enter/reenter caused by requests of this call
+                 ('C05', ' && '.join('(%s == 0 || %s > %s)' % (tk(k, 1), tk(k, 1), chain[5]) for k in LIFE1))]
+                + pr_ensures(pre_act))
+R_UPDATE = r_cycle((4, 5, 6), False)
+R_REACT = r_cycle((7, 8, 10), True)
+R_QUERY = dict(
+    requires_target=R_TARGET + ['{fresh:event}'],
+    requires=['g_clock < 100u', '%s < %s' % (R_ACT, N), '{ptr:event} == g_event'] + zero([9]),
+    # C05: query leaves the machine unchanged: nothing of *self is in the frame
+    assigns=['g_clock'] + marks([9]),
+    ensures=[('C05', '%s && %s && g_st[9][0] == 255 && g_st[9][1] == %s' % (ticked(9, 0), ticked(9, 1), R_ACT))])
+CLEAR_REGION = {'PlanDataT__clearRegionStatuses': dict(requires=[], assigns=['*self'], ensures=['self->planExists == __CPROVER_old(self->planExists)'])}
+PHASE_CALLEES_U = {'C___deepPreUpdate': c_phase_contract('preUpdate', False), 'C___deepUpdate': c_phase_contract('update', False), 'C___deepPostUpdate': c_phase_contract('postUpdate', True),
+                   'C___deepUpdatePlans': C_UPDATE_PLANS, 'R___processRequest': R_PR}
+PHASE_CALLEES_R = {'C___deepPreReact__Ev': c_phase_contract('preReact', False), 'C___deepReact__Ev': c_phase_contract('react', False), 'C___deepPostReact__Ev': c_phase_contract('postReact', True),
+                   'C___deepUpdatePlans': C_UPDATE_PLANS, 'R___processRequest': R_PR}
+PHASE_CALLEES_U.update(CLEAR_REGION); PHASE_CALLEES_R.update(CLEAR_REGION)
+UNITS += [
+    r_unit('update', 'R___update', R_UPDATE, PHASE_CALLEES_U, ['C05', 'C02', 'C01', 'C11', 'C18'], 0, calls={'R___processRequest': 'contract', 'PlanDataT__clearRegionStatuses': 'contract'}),
+    r_unit('react', 'R___react__Ev', R_REACT, PHASE_CALLEES_R, ['C05', 'C02', 'C01', 'C11', 'C18'], 1, calls={'R___processRequest': 'contract', 'PlanDataT__clearRegionStatuses': 'contract'}),
+    r_unit('query', 'R___query__Ev', R_QUERY, {'C___deepQuery__Ev': C_QUERY}, ['C05', 'C18'], 1),
 ]
